@@ -71,3 +71,14 @@ Proof.
   all: cbn [format_tag format_href format_protected]; rewrite ?bind_ok_id.
   all: induction H as [|p r Hp Hr IH]; cbn [render_parts]; [reflexivity|]; rewrite Hp, IH; reflexivity.
 Qed.
+
+(* ---- empty tagged or linked fragments render as nothing, in every back end ---- *)
+Lemma empty_fragments_vanish_holds enc T b n u e ps :
+  render_parts enc T b ps = Ok [] ->
+  render enc T b (RTag n ps) = Ok [] /\ render enc T b (RHRef u e ps) = Ok [].
+Proof.
+  intros H. rewrite !render_unfold, H. cbn [bind]. split; f_equal.
+  - destruct b; cbn [format_tag html_tag is_empty]; try reflexivity;
+      destruct (lookup n (t_tags T)) as [[tag|]|]; reflexivity.
+  - destruct b; reflexivity.
+Qed.
